@@ -1,10 +1,98 @@
 import Model.Common.Proto
-open Btc
+import Model.C05.VarInt
+import Model.C05.Codec
+import Model.C05.Tx
+import Model.C05.PsbtMap
+import Model.C05.Misc
+import Model.C08.Parse
+import Model.C19.Fuel
+import Generated.VarInt
+import Generated.Wire
+import Generated.Limits
+open Btc Btc.Wire Btc.Fuel
 
-/-- line protocol of property C19: see harness/c19.py -/
+/-- the Python class of a wire refusal: a short read of `var_bytes` octets is the one RuntimeError. -/
+def errClass : Wire.Err → String
+  | .shortBytes => "runtime"
+  | _ => "value"
+
+/-- `pos.<class> <hex>`: how many bytes of a caller's stream the parser consumes (stream mode),
+    and the model's own size of what it returned. -/
+def runPos (c : Codec α) (b : Bytes) : String :=
+  match c.parse b with
+  | .error e => s!"err {errClass e}"
+  | .ok (t, rest) => s!"ok {b.length - rest.length} {(c.ser t).length}"
+
+def varBytesStep : Step UInt8 Bytes := fun b =>
+  match varBytes.parse b with
+  | .ok r => some r
+  | .error _ => none
+
+def limitOf (name : String) : Option Nat :=
+  match name with
+  | "MAX_SIZE" => some Gen.Limits.MAX_SIZE
+  | "MAX_TX_IN_COUNT" => some Gen.Limits.MAX_TX_IN_COUNT
+  | "MAX_TX_OUT_COUNT" => some Gen.Limits.MAX_TX_OUT_COUNT
+  | "MAX_WITNESS_STACK_ITEMS" => some Gen.Limits.MAX_WITNESS_STACK_ITEMS
+  | "MAX_TREE_DEPTH" => some Gen.Limits.MAX_TREE_DEPTH
+  | "MAX_ADDR_TO_SEND" => some Gen.Limits.MAX_ADDR_TO_SEND
+  | "MAX_INV_SZ" => some Gen.Limits.MAX_INV_SZ
+  | "MAX_HEADERS_RESULTS" => some Gen.Limits.MAX_HEADERS_RESULTS
+  | "MAX_LOCATOR_SZ" => some Gen.Limits.MAX_LOCATOR_SZ
+  | "MAX_BLOCK_TX_INDEX" => some Gen.Limits.MAX_BLOCK_TX_INDEX
+  | "MAX_GETCFHEADERS_SIZE" => some Gen.Limits.MAX_GETCFHEADERS_SIZE
+  | "MAX_PROTOCOL_MESSAGE_LENGTH" => some Gen.Limits.MAX_PROTOCOL_MESSAGE_LENGTH
+  | "MAX_SCRIPT_ELEMENT_SIZE" => some Gen.Limits.MAX_SCRIPT_ELEMENT_SIZE
+  | "MAX_SCRIPT_SIZE" => some Gen.Limits.MAX_SCRIPT_SIZE
+  | _ => none
+
 def handle : List String → String
-  -- one line per generated module this driver serves, e.g.
-  -- | "gen" :: "VarInt" :: fn :: args => (Gen.VarInt.dispatch fn args).getD "bad-op"
+  | "gen" :: "Limits" :: fn :: args => (Gen.Limits.dispatch fn args).getD "bad-op"
+  | "gen" :: "VarInt" :: fn :: args => (Gen.VarInt.dispatch fn args).getD "bad-op"
+  | "gen" :: "Wire" :: fn :: args => (Gen.Wire.dispatch fn args).getD "bad-op"
+  | ["limit", name] => match limitOf name with | some v => s!"ok {v}" | none => "bad-op"
+  | ["limit.caps"] =>
+    "ok " ++ ";".intercalate (Gen.Limits.countCaps.map fun r => s!"{r.1}={r.2.2}")
+  | ["tree", text] =>
+    match parseLetters text.toList with
+    | some t => s!"ok {showTree t} depth={t.depth} leaves={t.leaves}"
+    | none => "err"
+  | ["counted.witness", hex] =>
+    match fromHex? hex with
+    | none => "bad-op"
+    | some b =>
+      match counted Gen.Limits.MAX_WITNESS_STACK_ITEMS varBytesStep b with
+      | .ok (xs, rest) => s!"ok {xs.length} {b.length - rest.length}"
+      | .error .tooMany => "err toomany"
+      | .error _ => "err"
+  | ["pos.script", hex] =>
+    match fromHex? hex with
+    | none => "bad-op"
+    | some b =>
+      let r := Script.parse b
+      s!"ok {r.1.length} {b.length - r.2.length}"
+  | ["pos.psbtmap", hex] =>
+    match fromHex? hex with
+    | none => "bad-op"
+    | some b =>
+      match Psbt.parseMap b with
+      | .error e => s!"err {errClass e}"
+      | .ok (recs, rest) => s!"ok {b.length - rest.length} {recs.length}"
+  | [cls, hex] =>
+    match fromHex? hex with
+    | none => "bad-op"
+    | some b =>
+      match cls with
+      | "pos.varint" => runPos (varInt Gen.Limits.MAX_SIZE) b
+      | "pos.varbytes" => runPos varBytes b
+      | "pos.outpoint" => runPos outPoint b
+      | "pos.witness" => runPos witness b
+      | "pos.txin" => runPos txIn b
+      | "pos.txout" => runPos txOut b
+      | "pos.tx" => runPos tx b
+      | "pos.header" => runPos blockHeader b
+      | "pos.block" => runPos block b
+      | _ => "bad-op"
   | _ => "bad-op"
 
 def main : IO Unit := runLoop handle
